@@ -250,6 +250,11 @@ func (w *writer) WriteHeader(code int) {
 	if code < 100 || code > 999 {
 		panic(fmt.Sprintf("invalid WriteHeader code %v", code))
 	}
+	if code >= 100 && code <= 199 && code != http.StatusSwitchingProtocols {
+		// Informational responses don't set the final status in net/http.
+		// The adaptor has no way to send them, so they are ignored.
+		return
+	}
 	w.statusCode.CompareAndSwap(0, int64(code))
 }
 
